@@ -92,6 +92,11 @@ CHECKS = {
         "note": "Trusted: TLC, monomial gate alphabet, harness construction of propagators/derivatives; exhaustive for 2 steps, sampled for 3 steps and shifting half steps. gradprop tensors are not compared individually (only through the chain rule).",
         "technique": "TLA+ exact reference semantics with per-term trajectories + TLC enumeration/simulation; spec->code replay of gradients",
     },
+    "C10": {
+        "text": "Chain.tla models chains with commuting couplings, ancilla environments per site and single-site controls as exact monomial dynamics stepped like PtTebd.initialize/compute_step with the gates of each Trotter layer completing in any order; TLC explores every completion order (OrderIndependent), NormOne and consistency of reduced states, and emits the reduced state of every recorded site subset after every step. Real PtTebd runs (orders 1/2, lengths 2..4, rank-3/4 process tensors, controls) are compared subset by subset and in norm; the backend's sequence of gate layers is compared with the spec's; 'multithread'/'multiprocess' run in fresh interpreters with the real pools and with an order-controlled executor; uncoupled chains are compared with single-site compute_dynamics; generic two-site chains with the dense Liouvillian propagator (numerical).",
+        "note": "Trusted: TLC, monomial gate alphabet, construction of diagonal chain Hamiltonians with root-of-unity phases. Generic (non-commuting, Trotterised) chains longer than two sites are numerical and not covered.",
+        "technique": "TLA+ chain model with task interleavings + TLC; spec->code replay in all execution modes (fresh interpreters, order-controlled executor)",
+    },
 }
 for e in ENGINES:
     e["serves_properties"] = sorted(CHECKS)
